@@ -167,7 +167,19 @@ fn run_family<T: ColumnType + 'static>(case: &Value) -> Value {
         "each" => {
             if let Ok(rs) = parsed {
                 let mut results = vec![];
-                for r in rs {
+                // `shutdown_before`: indices of records in front of which the runner is shut down (the runner stays in use afterwards)
+                let shut_at: Vec<usize> = case.get("shutdown_before").and_then(|a| a.as_array())
+                    .map(|a| a.iter().filter_map(|x| x.as_u64()).map(|x| x as usize).collect()).unwrap_or_default();
+                let mut ri = 0usize;          // index among the statement / query / system records
+                for r in rs.into_iter() {
+                    let executable = matches!(r, Record::Statement { .. } | Record::Query { .. } | Record::System { .. });
+                    if executable {
+                        for _ in shut_at.iter().filter(|&&k| k == ri) {
+                            shared.lock().unwrap().events.push(json!(["shutdown-call"]));
+                            runner.shutdown();
+                        }
+                        ri += 1;
+                    }
                     let res = runner.run(r);
                     results.push(match res {
                         Ok(o) => json!(["ok", output_json(&o)]),
